@@ -403,7 +403,17 @@ def _read_request(
 
     """
     reader = ValidatedReader(ipc.open_stream(reader_stream), ipc_validation)
-    batch, custom_metadata = reader.read_next_batch_with_custom_metadata()
+    try:
+        batch, custom_metadata = reader.read_next_batch_with_custom_metadata()
+    except StopIteration:
+        # A complete, valid IPC stream that carries no batch.  It has been read to
+        # its end, so the connection is still framed: this is a bad request to
+        # answer, not an end of the connection.
+        raise RpcError(
+            "ProtocolError",
+            "Request stream carries no batch. A request is an IPC stream with exactly one batch.",
+            "",
+        ) from None
     # Drain past the request stream's EOS *before* any validation that
     # might raise.  On pipe/subprocess transports the underlying reader
     # is shared across requests, so a rejected request that left bytes
